@@ -95,6 +95,8 @@ type Exec struct {
 	inQuoteMeta           bool
 	nvars                 int
 	failWhere             string
+	pathFlagged           bool // a violation or known finding was met on this path
+	pathCompleted         bool // the harness returned normally on this path
 	parseCache            map[string]Value
 	files                 map[*StructObj]*fileModel
 	fileSeq               int
